@@ -341,6 +341,16 @@ func (ex *Exec) havocLoop(st *State, fr *Frame, ld *loopDesc) {
 					}
 				case *ssa.MapUpdate:
 					classes[mapClass(x.Map.Type())] = true
+				case *ssa.Select:
+					if tsp := ex.Specs.Funcs[specName(fr.Fn)]; tsp != nil && fn == fr.Fn {
+						for _, gs := range tsp.GhostSets {
+							if gs.Callee == "select" {
+								for _, n := range gs.Names {
+									classes["G:$"+n] = true
+								}
+							}
+						}
+					}
 				case ssa.CallInstruction:
 					cc := x.Common()
 					// ghost recorders attached to this call change in the loop
